@@ -10,17 +10,17 @@ TECHNIQUE = ('explicit-state exploration on the real contexts: all interleavings
              '{mp, clone1, clone2, fp, iv}; invariant on every state (settings of every other context unchanged) and differential oracle '
              '(every evaluation equals the value obtained for that probe at that precision in a pristine forked child)')
 RULE = ('state = (prec, dps, pretty, trap_complex) of mp, two clones, iv (+ fp); alphabet: set prec of one context to a value of '
-        '{30,53,90,200}, set dps, toggle pretty / trap_complex, evaluate one probe of a 14-probe list in one context (probes include '
+        '{30,53,90,200}, set dps, toggle pretty / trap_complex, evaluate one probe of a 20-probe list in one context (probes include '
         'functions that reach for companion contexts: siegelz at large t, zetazero, primepi2, quad, constants, zeta with large imaginary '
         'part in fp).  All action sequences of depth <= 3 (quick: depth 3 over a seed-rotated third of the first actions + fixed core), '
         'each from a fresh group of contexts in a forked child per batch.  Invariants: an action on context X leaves the settings of every '
-        'other context unchanged; a value computed in a clone at precision p is bit-identical to mp at p (pristine baseline).  '
+        'other context unchanged; a value computed in a clone at precision p is bit-identical to mp at p (pristine baseline) and is a number of that clone.  '
         'non-trivial = every transition; states = distinct settings vectors')
 ASSUMPTIONS = ['baseline values come from a pristine forked child per (probe, precision)']
 BOUNDS = {'quick': 'depth 3 over 31 actions restricted to ~1/3 of first actions (seed-rotated) + all depth 2', 'thorough': 'all depth-3 sequences (29791)'}
 
 PRECS = (30, 53, 90, 200)
-PROBES = ['pi', 'sqrt2', 'exp', 'gamma', 'zeta3', 'quad', 'quadstd', 'quadinf', 'siegelz', 'zetazero', 'primepi2', 'bern', 'hyp', 'lu', 'ode', 'str']
+PROBES = ['pi', 'sqrt2', 'exp', 'gamma', 'zeta3', 'quad', 'quadstd', 'quadinf', 'siegelz', 'zetazero', 'primepi2', 'bern', 'hyp', 'lu', 'ode', 'str', 'airyai', 'coulombf', 'coulombc', 'stieltjes']
 
 
 def probe(ctx, name):
@@ -40,6 +40,10 @@ def probe(ctx, name):
     if name == 'lu': return ctx.det(ctx.matrix([[2, 1], [1, 3]]))
     if name == 'ode': return ctx.odefun(lambda x, y: y, 0, 1)(1)
     if name == 'str': return ctx.nstr(ctx.mpf(1) / 3, 12)
+    if name == 'airyai': return ctx.airyai(ctx.mpf('1.5'))                                  # constants memoised per context
+    if name == 'coulombf': return ctx.coulombf(1, 2, ctx.mpf('3.5'))                        # normalisation constants memoised in the function
+    if name == 'coulombc': return ctx.coulombc(1, 2)
+    if name == 'stieltjes': return ctx.stieltjes(2)
     raise KeyError(name)
 
 
@@ -61,6 +65,8 @@ def actions():
     for c, names in (('mp', ('pi', 'quad', 'quadstd', 'quadinf', 'siegelz')), ('c1', ('pi', 'quad', 'quadstd', 'quadinf', 'zetazero', 'zeta3')), ('c2', ('primepi2', 'gamma')), ('fp', ('zetabig', 'siegelzbig', 'gamma')), ('iv', ('exp',))):
         for n in names:
             A.append(('eval', c, n))
+    for c, n in (('mp', 'airyai'), ('c1', 'airyai'), ('mp', 'coulombf'), ('c2', 'coulombf'), ('c1', 'coulombc'), ('mp', 'stieltjes'), ('c2', 'stieltjes')):
+        A.append(('eval', c, n))
     return A
 
 
@@ -123,6 +129,8 @@ def child_run(seqs):
                     else:
                         v = probe(c, n)
                         evals.append((cn, n, c.prec, obs(v)))
+                        if (hasattr(v, '_mpf_') and type(v) is not c.mpf) or (hasattr(v, '_mpc_') and type(v) is not c.mpc):
+                            problems.append(('foreign-type', seq, act, 'the result is a number of another context (%s)' % type(v).__name__))
             except Exception as e:
                 if kind == 'eval':
                     problems.append(('raise', seq, act, '%s: %s' % (type(e).__name__, str(e)[:80])))
